@@ -628,6 +628,36 @@ func runBuiltinCaseNorm(c *mon.Ctx, stmts []*gt.T, pt *ref.Point, cell string, f
 		c.Violate("stdout-differs", fmt.Sprintf("standard output %q, expected %q\n--- program\n%s", stdout, want, src), info)
 		return
 	}
+	// no memory: the same loaded script run again, and the same text loaded
+	// again and run, have exactly the documented effect too
+	for pass := 0; pass < 2; pass++ {
+		s, what := script, "the SECOND run of the same loaded script"
+		if pass == 1 {
+			what = "the run of a SECOND load of the same text"
+			if s, err = drive.LoadV1One(name, src); err != nil {
+				c.Violate("second-load-rejected", fmt.Sprintf("accepted by the first load, rejected by the second: %v\n%s", err, src), info)
+				return
+			}
+		}
+		real2 := drive.PointFromModel(pt)
+		var ro2 drive.Outcome
+		stdout2 := drive.CaptureStdout(func() { ro2 = drive.RunV1(s, real2, &drive.RunState{Budget: 20000}) })
+		c.Eval(1)
+		c.Count("second_runs_and_second_loads", 1)
+		if m, ok := model.Fields["pl_msg"].(string); ok && m == ref.PlMsgPrefix {
+			if r, ok := real2.Fields["pl_msg"].(string); ok && len(r) >= len(m) && r[:len(m)] == m {
+				real2.Fields["pl_msg"] = m
+			}
+		}
+		if r := compareRun(ro2, mo, cmpOpts{Point: model, RealPoint: real2}); r != nil {
+			c.Violate("again-differs:"+r.Class+":"+builtinOf(stmts), fmt.Sprintf("%s differs from the reference (the first run agreed): %s\n--- program\n%s--- point before\n%s", what, r.Detail, src, pt.Show()), info)
+			return
+		}
+		if want := mo.Shared.Stdout.String(); want != stdout2 {
+			c.Violate("again-differs:stdout", fmt.Sprintf("%s: standard output %q, expected %q\n--- program\n%s", what, stdout2, want, src), info)
+			return
+		}
+	}
 	if c.WantSample() && c.R.Intn(40) == 0 {
 		c.Sample(map[string]any{"source": src, "point_before": pt.Show(), "point_after": model.Show(), "stdout": stdout})
 	}
